@@ -436,8 +436,13 @@ fn build_enum(
 
     let syn_fields = fields.iter().enumerate().map(|(idx, (name, value))| {
         let name_ident = str_to_ident(name);
-        let field = quote! {
-            #name_ident = #value as _
+        // Written without a suffix the literal has the enum's own integer type; an `isize`
+        // literal would be out of range on targets where `isize` is narrower than that type.
+        let magnitude = proc_macro2::Literal::u128_unsuffixed(value.unsigned_abs() as u128);
+        let field = if *value < 0 {
+            quote! { #name_ident = -#magnitude }
+        } else {
+            quote! { #name_ident = #magnitude }
         };
 
         if default_index.is_some_and(|i| i == idx) {
